@@ -237,6 +237,7 @@ fn test(case: &Case, st: &mut Stats, counting: bool) -> CaseResult {
     let mut trace: Vec<String> = vec![];
     let mut early_handles = 0usize;
     let mut aged_copies = 0usize;
+    let mut metas = 0usize;
     let mut crossfs = 0usize; // transfers between the altroot and an unrelated filesystem
     let mut held = 0usize; // create sessions held open and inspected through the underlying filesystem
     let mut facts = (0usize, 0usize, 0usize, false); // hostile mutating ops, executed, tolerated ancestor lookups, content next to P
@@ -541,6 +542,17 @@ fn test(case: &Case, st: &mut Stats, counting: bool) -> CaseResult {
             if sv.tree != expect_view || !sv.problems.is_empty() {
                 return Err((step, format!("after {}: the altroot view is not the subtree below P='{}': {:?} {:?}", op_q.render(), p_total, diff_trees(&expect_view, &sv.tree), sv.problems.iter().take(3).collect::<Vec<_>>())));
             }
+            // ... and every entry of the view, the view's own root included, is the entry P/q itself:
+            // type, length and all three timestamps as the underlying filesystem reports them
+            for q in sv.tree.m.keys() {
+                let ma = at(&alt_root, q).ok().and_then(|p| p.metadata().ok());
+                let mu = at(&a_under, &format!("{}{}", p_total, q)).ok().and_then(|p| p.metadata().ok());
+                let five = |m: &vfs::VfsMetadata| (m.file_type == vfs::VfsFileType::Directory, m.len, m.created, m.modified, m.accessed);
+                if ma.as_ref().map(five) != mu.as_ref().map(five) {
+                    return Err((step, format!("after {}: metadata('{}') through the altroot is {:?} but metadata('{}{}') of the underlying filesystem is {:?}", op_q.render(), q, ma.as_ref().map(five), p_total, q, mu.as_ref().map(five))));
+                }
+                metas += 1;
+            }
             view = sv.tree;
             log.lock().unwrap().clear();
         }
@@ -579,6 +591,7 @@ fn test(case: &Case, st: &mut Stats, counting: bool) -> CaseResult {
                 st.label_n("cross_filesystem_transfers", crossfs as u64);
                 st.label_n("read_handles_opened_before_a_mutation", early_handles as u64);
                 st.label_n("copies_of_aged_sources", aged_copies as u64);
+                st.label_n("entries_whose_full_metadata_equals_the_underlying_entry", metas as u64);
                 st.label_n("hostile_mutating_ops", facts.0 as u64);
                 st.label_n("tolerated_ancestor_lookups", facts.2 as u64);
                 if nt {
@@ -669,7 +682,7 @@ pub fn replay(v: &Value) -> CaseResult {
     test(&case, &mut st, false)
 }
 
-const RULE: &str = "underlying U in {Mem, Phys, Overlay[..], Overlay on sub-paths} pre-populated inside and outside P; P = 0..3 components drawn from the case's own name pool (so that children named like P occur), optionally an altroot of an altroot, or no altroot at all (backend root used directly); a plain PhysicalFS underlying is built from a RELATIVE root path ('../<dir>/jail/root') in half of the cases while its twin uses the absolute path; create sessions are now and then held open and the underlying filesystem inspected meanwhile; read handles opened before a mutating call on their file and read afterwards must deliver what a handle on P/q delivers; copies of a source whose modification time was set to 2001 must be as recent as the twin's copy; copy_file / move_file / copy_dir out of the altroot into an unrelated MemoryFS and copy_file from there into the altroot, the twin doing the same on P/q (same outcome, same other filesystem, same underlying tree); typed C01 ops whose path arguments are join()ed from hostile strings ('../'-climbs, absolute restarts, detours, backslashes, '%2e', names glued to '..', P's own name); oracles: (1) twin instance U' receives the call on P/q (q by the independent reference resolver): same outcome class/value and identical WHOLE underlying snapshots after every step, and the altroot view equals the subtree below P; (2) a recorder between altroot and U: every trait call's path lies in P (exists/metadata on proper ancestors of P tolerated and counted); (3) OS jail around every PhysicalFS root (sentinel sibling, parent, cwd, '/') unchanged; non-trivial = >=1 mutating op issued through a hostile argument while content exists next to P";
+const RULE: &str = "underlying U in {Mem, Phys, Overlay[..], Overlay on sub-paths} pre-populated inside and outside P; P = 0..3 components drawn from the case's own name pool (so that children named like P occur), optionally an altroot of an altroot, or no altroot at all (backend root used directly); a plain PhysicalFS underlying is built from a RELATIVE root path ('../<dir>/jail/root') in half of the cases while its twin uses the absolute path; create sessions are now and then held open and the underlying filesystem inspected meanwhile; read handles opened before a mutating call on their file and read afterwards must deliver what a handle on P/q delivers; copies of a source whose modification time was set to 2001 must be as recent as the twin's copy; copy_file / move_file / copy_dir out of the altroot into an unrelated MemoryFS and copy_file from there into the altroot, the twin doing the same on P/q (same outcome, same other filesystem, same underlying tree); typed C01 ops whose path arguments are join()ed from hostile strings ('../'-climbs, absolute restarts, detours, backslashes, '%2e', names glued to '..', P's own name); oracles: (1) twin instance U' receives the call on P/q (q by the independent reference resolver): same outcome class/value and identical WHOLE underlying snapshots after every step, and the altroot view equals the subtree below P; and metadata(q) of every entry of the view, its root included, equal to metadata(P/q) of the underlying filesystem in type, length and all three timestamps; (2) a recorder between altroot and U: every trait call's path lies in P (exists/metadata on proper ancestors of P tolerated and counted); (3) OS jail around every PhysicalFS root (sentinel sibling, parent, cwd, '/') unchanged; non-trivial = >=1 mutating op issued through a hostile argument while content exists next to P";
 
 pub fn run(ctx: &RunCtx) -> i32 {
     ensure_cwd();
